@@ -107,6 +107,14 @@ class EighthSphere(Shape):
         normal = f.unit_vector(np.asarray(normal))
 
         self.lofts = eighth_sphere_lofts(center_point, radius_point, normal, self.geometry_label, diagonal_angle)
+        self._keep_defining_points(self.lofts[0], self.lofts[1])
+
+    def _keep_defining_points(self, core: Loft, shell: Loft) -> None:
+        """Remembers the Point objects at sphere's center and on its radius;
+        they move with the lofts but a mirrored loft swaps its bottom and top face
+        so they cannot be looked up by their place in the lofts later"""
+        self._center = core.bottom_face.points[0]
+        self._radius = shell.bottom_face.points[1]
 
     ### Chopping
     def chop_axial(self, **kwargs):
@@ -154,11 +162,11 @@ class EighthSphere(Shape):
 
     @property
     def radius_point(self) -> NPPointType:
-        return self.shell[0].bottom_face.points[1].position
+        return self._radius.position
 
     @property
     def center_point(self) -> NPPointType:
-        return self.lofts[0].bottom_face.points[0].position
+        return self._center.position
 
     @property
     def normal(self) -> NPVectorType:
@@ -233,6 +241,7 @@ class Hemisphere(EighthSphere):
             rotated_shell += rotated_eighth[1:]
 
         self.lofts = rotated_core + rotated_shell
+        self._keep_defining_points(self.core[0], self.shell[0])
 
     @property
     def core(self):
